@@ -40,7 +40,9 @@ type MemFile struct {
 	ReadOnlyFS bool // if true, writes and truncates fail (never used by fault-free runs)
 	TornAll    bool // FaultMode 1: every partial length 0..n-1 of a write (otherwise 0, 1, n/2, n-1 bytes)
 	// monitors
-	OnCall func(c *IOCall)
+	OnCall     func(c *IOCall)
+	KeepWrites bool     // keep every successful write / truncate of the whole execution in WLog
+	WLog       []IOCall // (crash images)
 }
 
 type memInfo struct{ size int64 }
@@ -106,6 +108,9 @@ func (f *MemFile) record(c IOCall) {
 	}
 	if f.LogOn {
 		f.Log = append(f.Log, c)
+	}
+	if f.KeepWrites && !c.Fail && (c.Op == "W" || c.Op == "T") {
+		f.WLog = append(f.WLog, c)
 	}
 }
 
